@@ -163,7 +163,7 @@ class SpecGen:
             node["default"] = {"t": "expr", "n": self.pick_any()}
         if cfg.get("user_evaluatables") and r.random() < 0.25 and key not in U.WHOLE_KEYS and (node.get("default") or {"t": "const"})["t"] == "const":
             # a user-defined Evaluatable in the place of this Option (no domain, no type, a literal default or none)
-            node["impl"] = "user"
+            node["impl"] = r.choice(["user", "user_mixin"])
             return self.add(node, hashable=not isinstance((node.get("default") or {}).get("v"), (list, dict)))
         if cfg.get("opt_type") and r.random() < 0.25:
             node["type"] = r.choice(["int", "str", "object"])
@@ -487,7 +487,7 @@ class SpecGen:
             return False
         if k == "val":
             return not isinstance(n["v"], dict) and "{" not in repr(n["v"])
-        if k == "opt" and n.get("impl") == "user":
+        if k == "opt" and n.get("impl") in ("user", "user_mixin"):
             return False  # (hands templated text through unresolved: braces again)
         if k == "opt" and "{" in repr((n.get("default") or {}).get("v")):
             return False  # (brace text in a literal default: the same re-resolution hazard)
@@ -775,6 +775,8 @@ def prune(spec):
     out = {"nodes": [copy.deepcopy(n) for n in spec["nodes"] if n["id"] in keep], "roots": list(spec["roots"])}
     if spec.get("env"):
         out["env"] = dict(spec["env"])  # (the environment the program runs in travels with it)
+    if spec.get("leaf_calls"):
+        out["leaf_calls"] = True
     return out
 
 
